@@ -277,7 +277,15 @@ pub fn scn_faults(out: &mut TraceOut, r: &mut R, idx: u64, heavy: bool) {
                 cfg.levels = 3;
             }
             io::reset(Sched::Whole, Sched::Whole, None);
-            let Some(bytes) = write_file(&cfg, &entries).bytes else { return };
+            // every third reader program runs on a version-1 file
+            let v1 = (idx / 4) % 3 == 2;
+            if v1 {
+                cfg.levels = 0;
+            }
+            let Some(mut bytes) = write_file(&cfg, &entries).bytes else { return };
+            if v1 {
+                bytes = to_v1(&bytes);
+            }
             let mut probes: Vec<Vec<u8>> = entries.iter().step_by(5).map(|(k, _)| k.clone()).collect();
             probes.push(vec![]);
             probes.push(vec![0xFF; 4]);
